@@ -97,7 +97,27 @@ func TestC15(t *testing.T) {
 			c.EncryptedClientHelloConfigList = peer.ECHConfigList(key)
 			c.NextProtos = []string{"h2", "http/1.1"}
 		}
-		h := RunCase(j.t, GridCase{Server: scfg}, secret, extra, peer.Opts{})
+		tgt := j.t
+		if i%3 == 1 && tgt.Spec == nil && tgt.ID.Client != tls.HelloGolang.Client {
+			// the same parrot as a custom spec whose server_name extension already carries the
+			// (secret) host name - a caller pinning the host, or a spec object that served an
+			// earlier connection
+			id := tgt.ID
+			tgt = Target{Name: j.t.Name, Spec: func() (*tls.ClientHelloSpec, error) {
+				sp, err := tls.UTLSIdToSpec(id)
+				if err != nil {
+					return nil, err
+				}
+				for _, e := range sp.Extensions {
+					if sn, ok := e.(*tls.SNIExtension); ok {
+						sn.ServerName = secret
+					}
+				}
+				return &sp, nil
+			}}
+			r.Count("specs_with_prefilled_server_name", 1)
+		}
+		h := RunCase(tgt, GridCase{Server: scfg}, secret, extra, peer.Opts{})
 		sig := map[string]string{"target": j.t.Name, "behaviour": j.behave, "aead": fmt.Sprint(j.aead)}
 		rep := map[string]any{"case": i, "target": j.t.Name, "aead": j.aead, "config_id": j.cfgID, "max_name_len": j.maxName, "behaviour": j.behave, "secret": secret, "err": h.ErrString()}
 		if h.ClientPanic != "" || h.ServerPanic != "" {
